@@ -119,8 +119,10 @@ PROPS["C08"] = {
               {"name": "big", "pkg": "c08", "chk": "chk_c08_big", "args": ["big"]},
               {"name": "ws", "pkg": "c08", "chk": "chk_c08_ws", "args": ["ws"]},
               {"name": "resp", "pkg": "c08", "chk": "chk_c08_resp", "args": ["resp"]},
-              {"name": "slowwriter", "pkg": "c08", "chk": "chk_c08_slow", "args": ["slowwriter"]}],
+              {"name": "slowwriter", "pkg": "c08", "chk": "chk_c08_slow", "args": ["slowwriter"]},
+              {"name": "bigws", "pkg": "c08", "chk": "chk_c08_bigws", "args": ["bigws"]}],
     "reasons": {
+        "bigws": {"3": "grpc-websockets: a real-size frame within the 4 MiB limit was not delivered whole, or an oversize frame was cut or dropped without an error"},
         "slowwriter": {"9": "F33: the request direction fails while the target's first response is still being written to a slow client, and the client takes that frame only after the call is over: the trailer frame comes first and the data frame lands behind it, written after ServeHTTP had returned",
                        "10": "with a client that reads slowly the response frames are not data frames followed by exactly one trailer frame, or the response writer was used after ServeHTTP had returned (other than the schedule of F33)"},
         "frames": {"1": "a request frame within the limit was not delivered intact, in order, exactly once", "2": "a malformed/oversize tail did not end the call with an error (or a clean stream did)"},
